@@ -6,6 +6,7 @@ from functools import lru_cache
 import sympy as sp
 
 from ..core import AnalysisError
+from .. import repoindex as ri
 from ..kpe import Interp, to_obj_array, FuncRef, S
 
 RTBP = "hiten.algorithms.dynamics.rtbp"
@@ -83,3 +84,45 @@ class Relabel:
 
     def fail(self, rule, construct, *a, **kw):
         return self._chk.fail(self._r(rule), construct, *a, **kw)
+
+
+def facade_bindings(chk, rule, module_prefixes, floor=1):
+    """Facade -> service calls bind every argument to the parameter it is meant for: in a method of a class under
+    `module_prefixes` (the public facade, src/hiten/system), a call `self.<service>.<m>(...)` whose method name resolves to
+    methods of the service package must not pass a plain variable NAMED LIKE ONE PARAMETER of that method into the slot of
+    ANOTHER parameter (positionally or by keyword): `hamsys(form, max_deg)` against `def hamsys(self, degree, form)`.
+    A purely nominal, type-free swap rule; arguments whose name is no parameter of the callee are left alone."""
+    import ast as _ast
+    svc = {}
+    for m in ri.all_modules():
+        if not m.name.startswith("hiten.algorithms.types.services"):
+            continue
+        for cls in [c for c in m.tree.body if isinstance(c, _ast.ClassDef)]:
+            for f in [f for f in cls.body if isinstance(f, _ast.FunctionDef)]:
+                if not any("property" in d or d.endswith(".setter") for d in ri.decorators(f)):
+                    svc.setdefault(f.name, []).append((cls.name, f))
+    n = 0
+    for m in ri.all_modules():
+        if not any(m.name == p or m.name.startswith(p + ".") for p in module_prefixes):
+            continue
+        for cls in [c for c in m.tree.body if isinstance(c, _ast.ClassDef)]:
+            for f in [f for f in cls.body if isinstance(f, _ast.FunctionDef)]:
+                for c in _ast.walk(f):
+                    if not (isinstance(c, _ast.Call) and isinstance(c.func, _ast.Attribute) and isinstance(c.func.value, _ast.Attribute)
+                            and isinstance(c.func.value.value, _ast.Name) and c.func.value.value.id == "self" and svc.get(c.func.attr)):
+                        continue
+                    n += 1
+                    bad = []
+                    for cname, sf in svc[c.func.attr]:
+                        params = [a.arg for a in sf.args.args][1:]
+                        allp = set(params) | {a.arg for a in sf.args.kwonlyargs}
+                        for i, a in enumerate(c.args):
+                            if isinstance(a, _ast.Name) and i < len(params) and a.id != params[i] and a.id in allp:
+                                bad.append(f"argument `{a.id}` lands in parameter `{params[i]}` of {cname}.{sf.name}")
+                        for k in c.keywords:
+                            if k.arg and isinstance(k.value, _ast.Name) and k.value.id != k.arg and k.value.id in allp and k.arg in allp:
+                                bad.append(f"`{k.arg}={k.value.id}` although {cname}.{sf.name} has a parameter `{k.value.id}`")
+                    chk.check(not bad, rule, f"{m.name}::{cls.name}.{f.name}[self.{c.func.value.attr}.{c.func.attr}(...)]",
+                              f"{cls.name}.{f.name} calls {_ast.unparse(c)[:90]}: {'; '.join(sorted(set(bad))[:3])}",
+                              sample=f"{cls.name}.{f.name} -> {c.func.attr}: arguments bound to their namesakes", nontrivial=False)
+    chk.floor(f"facade -> service calls under {list(module_prefixes)}", n, floor)
